@@ -163,6 +163,28 @@ def check_bt_flush(ck, prog):
     ck.floor("C12-BTFLUSH", 6)
 
 
+def check_props_change(ck, prog):
+    """A change of lc/lp/pb accepted by lzma2_encoder_options_update() takes effect through lzma_lzma_encoder_reset():
+    the masks derived from the properties must be recomputed there (not only when the encoder is created)."""
+    ck.rule("C12-PROPS", "lzma_lzma_encoder_reset() recomputes pos_mask, literal_context_bits and literal_mask from the "
+                         "options it is given")
+    f = prog.fn("lzma_lzma_encoder_reset", "lzma_encoder.c")
+    ck.saw_function(f)
+    got = {}
+    for b, i, e in f.iter_elems():
+        for (l, r, op, node) in ex.writes(e):
+            t = ex.show(l)
+            if t in ("coder->pos_mask", "coder->literal_context_bits", "coder->literal_mask") and r is not None:
+                got[t] = any(x.get("k") == "var" and x["n"] == "options" for x in ex.walk(r))
+    ok = len(got) == 3 and all(got.values())
+    ck.ob("C12-PROPS", "reset-recomputes-masks", ok, common.where(f),
+          "lzma_lzma_encoder_reset: %s derived from *options" % sorted(got) if ok else
+          "lzma_lzma_encoder_reset() does not recompute %s from its options: after lzma_filters_update() with new lc/lp/pb "
+          "the chunk header announces the new properties but the encoder keeps coding with the old masks (undecodable)" % (
+              sorted(set(["coder->pos_mask", "coder->literal_context_bits", "coder->literal_mask"]) -
+                     {k for k, v in got.items() if v})), key="PROPS:reset-masks")
+
+
 def check_lzma2(ck, prog):
     ck.rule("C12-LZMA2", "LZMA2/LZ encoder flush details")
     f = prog.fn("lzma2_encode", "lzma2_encoder.c")
@@ -320,6 +342,7 @@ def run(ck):
     check_refuse_simple(ck, prog)
     check_lzma2(ck, prog)
     check_bt_flush(ck, prog)
+    check_props_change(ck, prog)
     ck.rule("C12-UPD", "update functions: allowed states and validation order")
     check_upd(ck, prog)
     ck.floor("C12-CONV", 3)
